@@ -103,6 +103,16 @@ CLAIMED = {
             'distinct apertures.',
             'deterministic simulation: seeded fit->plot histories over channels, prior consumers and memmap/storage knobs; stored-prediction cross-stage oracle',
             'DESIGN.md section 5 (C17)'),
+    'C12': ('exploration',
+            'Storage round trip in the shape of a simulated store: seeded histories of puts and gets of SEDs, cubes and convolved-flux tables on '
+            'a small shared directory against an in-memory map, with overwrites by objects of another shape, read knobs (order, stored unit, '
+            'memmap) and cube objects that stay memory-mapped across an overwrite of their file. Cells are matched by (model name, aperture '
+            'value, wavelength value). The statement is fault-free, so no fault is injected: the simulator contributes the operation histories '
+            'and knobs; the cell comparison itself is ordinary model-based checking, and it is claimed at that level.',
+            'SED values within 1e-12 (read multiplies and divides by nu), cube/convolved cells exactly; for an SED written without apertures '
+            'only the single row of values is required.',
+            'deterministic simulation (narrow): seeded put/get/overwrite histories on real files against an in-memory reference map, no fault injection (fault-free statement)',
+            'DESIGN.md section 5 (C12)'),
 }
 
 NOT_APPLICABLE = {
